@@ -763,6 +763,36 @@ func externalUses(pkgdir string) []string {
 	return out
 }
 
+// loopFacts: for every `for` statement directly in the function body: whether it is bounded
+// (init / condition / post present), how many `return`s sit inside it, and how many statements
+// follow it. An unbounded search loop that can only be left by `return <found>` has the shape
+// "for: init=- cond=- post=- returns-inside=1 statements-after=0".
+func loopFacts(fd *ast.FuncDecl) []string {
+	var out []string
+	for i, st := range fd.Body.List {
+		fs, ok := st.(*ast.ForStmt)
+		if !ok {
+			continue
+		}
+		pres := func(b bool) string {
+			if b {
+				return "+"
+			}
+			return "-"
+		}
+		rets := 0
+		ast.Inspect(fs.Body, func(n ast.Node) bool {
+			if _, ok := n.(*ast.ReturnStmt); ok {
+				rets++
+			}
+			return true
+		})
+		out = append(out, fmt.Sprintf("for: init=%s cond=%s post=%s returns-inside=%d statements-after=%d",
+			pres(fs.Init != nil), pres(fs.Cond != nil), pres(fs.Post != nil), rets, len(fd.Body.List)-1-i))
+	}
+	return out
+}
+
 func leanStr(s string) string {
 	s = strings.ReplaceAll(s, "\\", "\\\\")
 	s = strings.ReplaceAll(s, "\"", "\\\"")
@@ -885,6 +915,9 @@ func main() {
 	g2, c2 := stateAndCalls(findFunc(bnf, "G1", "HashToPoint"), bvars)
 	g3, c3 := stateAndCalls(findFunc(bnf, "", "hashToCurvePoint"), bvars)
 	s.WriteString(leanList("hashToG1", "bn_curve.go: hashToG1", shape(findFunc(bcf, "", "hashToG1"))))
+	s.WriteString(leanList("hashToCurvePointLoop", "bn256.go: the try-and-increment loop of hashToCurvePoint is unbounded and is left only by returning a point", loopFacts(findFunc(bnf, "", "hashToCurvePoint"))))
+	s.WriteString(leanList("hashToCurvePoint", "bn256.go: hashToCurvePoint", shape(findFunc(bnf, "", "hashToCurvePoint"))))
+	s.WriteString(leanList("hashToPoint", "bn256.go: G1.HashToPoint", shape(findFunc(bnf, "G1", "HashToPoint"))))
 	s.WriteString(leanList("hashToG1State", "bn_curve.go: package-level variables hashToG1 touches (must stay empty: no cache, no state)", g1))
 	s.WriteString(leanList("hashToG1Calls", "bn_curve.go: callees of hashToG1", c1))
 	s.WriteString(leanList("hashToPointState", "bn256.go: package-level variables G1.HashToPoint touches", g2))
